@@ -234,6 +234,12 @@ def main(argv=None):
         if not q.module:
             q.module = modname
     queries = expand_splits(queries)
+    seen_ids, uniq = set(), []
+    for q in queries:                     # a class defined twice in the tree yields the same query twice: run it once
+        if q.qid not in seen_ids:
+            seen_ids.add(q.qid)
+            uniq.append(q)
+    queries = uniq
     if args.only:
         queries = [q for q in queries if args.only in q.qid]
     rnd = random.Random(seed)
